@@ -861,11 +861,16 @@ func fixedCases() []*tcase {
 	g.geo = true
 	out = append(out, g)
 	// overflow corner of stats.Mean: Max − Min is not representable, the float mean becomes +Inf
-	ovf := mk([]string{"old", "new"}, [][]string{
+	ovfA := mk([]string{"old", "new"}, [][]string{
 		{"BenchmarkX 1 -1.7976931348623157e308 ns/op", "BenchmarkX 1 1.7976931348623157e308 ns/op"},
-		{"BenchmarkX 1 -1e308 ns/op", "BenchmarkX 1 1e308 ns/op", "BenchmarkX 1 1.5e308 ns/op"}})
-	ovf.tags["overflow"] = true
-	out = append(out, ovf)
+		{"BenchmarkX 1 1 ns/op", "BenchmarkX 1 2 ns/op"}})
+	ovfA.tags["overflow"] = true
+	out = append(out, ovfA)
+	ovfB := mk([]string{"old", "new"}, [][]string{
+		{"BenchmarkX 1 -1e308 ns/op", "BenchmarkX 1 1e308 ns/op", "BenchmarkX 1 1.5e308 ns/op"},
+		{"BenchmarkX 1 1 ns/op", "BenchmarkX 1 2 ns/op"}})
+	ovfB.tags["overflow"] = true
+	out = append(out, ovfB)
 	// the C11 witness shape {1,NaN} vs {2,3} and friends, through the collection (real UTest, unguarded)
 	for _, w := range [][][]string{
 		{{"BenchmarkX 1 1 ns/op", "BenchmarkX 1 NaN ns/op"}, {"BenchmarkX 1 2 ns/op", "BenchmarkX 1 3 ns/op"}},
